@@ -2,6 +2,7 @@
 
 pub mod c01;
 pub mod c02;
+pub mod c03;
 pub mod c08;
 pub mod c11;
 pub mod c12;
@@ -26,6 +27,8 @@ pub fn check(id: &str, tier: &str) -> i32 {
     match id {
         "C01" => c01::check(tier),
         "C02" => c02::check(tier),
+        "C03" => c03::check_c03(tier),
+        "C04" => c03::check_c04(tier),
         "C08" => c08::check(tier),
         "C11" => c11::check(tier),
         "C12" => c12::check(tier),
